@@ -96,11 +96,32 @@ def icv_helper(db, callee):
 def integrity_compare_nodes(f, kind, db=None):
     """nodes of the comparison(s) that constitute the integrity check: (node, True when the node is TRUE on success)"""
     out = []
+    crc_vars = set(n["var"] for n in facts.fn_nodes(f) if n["k"] == "VarDecl" and n.get("c") and
+                   any(x["k"] == "CallExpr" and x.get("cname") == "crc32" for x in facts.walk(n["c"][0])))
+    single = facts.single_assign(f)
+
+    def is_crc(e):
+        return any((x["k"] == "DeclRefExpr" and x.get("var") in crc_vars) or (x["k"] == "CallExpr" and x.get("cname") == "crc32")
+                   for x in facts.walk(e))
     for n in facts.fn_nodes(f):
         if kind == "crc":
             # pload[size - k] != (crc >> s) & 0xff   chained with ||   (or == chained with &&, or a helper doing that)
-            if n["k"] == "BinaryOperator" and n["op"] in ("!=", "==") and "crc" in facts.expr_str(n):
-                out.append((n, n["op"] == "=="))
+            if n["k"] == "BinaryOperator" and n["op"] in ("!=", "==") and (is_crc(n["c"][0]) or is_crc(n["c"][1])):
+                other = n["c"][1] if is_crc(n["c"][0]) else n["c"][0]
+                mine = n["c"][0] if is_crc(n["c"][0]) else n["c"][1]
+                wide = (facts.ty(f, facts.strip_all(other)) or {}).get("w") == 32 and facts.strip_all(mine)["k"] in ("DeclRefExpr", "CallExpr")
+                if wide:
+                    # the whole 32-bit value at once: the stored ICV assembled from four bytes in little-endian order (the
+                    # order of the byte-wise form); a big-endian read compares the wrong bytes
+                    src = facts.strip_all(other)
+                    if src["k"] == "DeclRefExpr" and src.get("var") in single:
+                        src = facts.strip_all(single[src["var"]])
+                    if any(x["k"] == "CXXMemberCallExpr" and x.get("cname") == "read_be" for x in facts.walk(src)) or \
+                            any(x["k"] == "CallExpr" and x.get("cname") in ("be_to_host", "host_to_be") for x in facts.walk(src)):
+                        continue
+                    out += [(n, n["op"] == "==")] * 4
+                else:
+                    out.append((n, n["op"] == "=="))
             elif n["k"] == "CallExpr" and db is not None and n.get("callee") and not n.get("ext") and icv_helper(db, n["callee"]):
                 out += [(n, True)] * 4
         else:
@@ -527,12 +548,28 @@ def r8(db, rep):
         region = None
         for blk in [x for x in facts.fn_nodes(f) if x["k"] == "CompoundStmt"]:
             kids = [y for y in blk.get("c", []) if y is not None]
-            hit = [y for y in kids if reads_ds(y) and not (y["k"] in ("IfStmt", "CompoundStmt") and not any(
-                z["k"] == "CXXMemberCallExpr" and z.get("cname") in ("from_ds", "to_ds") for z in facts.walk([w for w in y["c"] if w is not None][0])) and y["k"] == "IfStmt" and not reads_ds([w for w in y["c"] if w is not None][0]))]
+
+            def tests_ds(y):
+                """the statement itself branches on the DS bits (an if / switch whose condition reads them), or is a plain
+                statement that reads them - not merely a block that contains such a statement somewhere inside"""
+                if y["k"] in ("IfStmt", "SwitchStmt", "WhileStmt"):
+                    head = [w for w in y["c"] if w is not None][0]
+                    return reads_ds(head)
+                if y["k"] in ("CompoundStmt", "ForStmt", "DoStmt", "CXXTryStmt"):
+                    return False
+                return reads_ds(y)
+            hit = [y for y in kids if tests_ds(y)]
             if hit:
                 first = kids.index(hit[0])
                 last = kids.index(hit[-1])
                 region = {"k": "CompoundStmt", "id": -1, "c": [y for y in kids[:first] if y["k"] == "DeclStmt"] + kids[first:last + 1]}
+                # a setting for which the DS-testing statements fall through is decided by what follows them: the region then
+                # extends to the next statement of the block that names an address getter (the common `return` of the rest)
+                region_ext = None
+                for k2 in range(last + 1, len(kids)):
+                    if addrs(kids[k2]):
+                        region_ext = {"k": "CompoundStmt", "id": -1, "c": region["c"] + kids[last + 1:k2 + 1]}
+                        break
         if region is None:
             rep.analysis_broken("%s: DS tests not found" % short)
             continue
@@ -548,12 +585,15 @@ def r8(db, rep):
                     if e["k"] == "CXXMemberCallExpr" and (e.get("cname") or "").startswith("operator ") and e["c"] and e["c"][0].get("c"):
                         return ieval.ev(f, e["c"][0]["c"][0], env)      # small_uint<1> -> integer conversion
                     return None
-                eff = ieval.trace(f, region, {"__termfn2__": tf, "__db__": db})
                 got = frozenset()
-                for k_, n_ in eff:
-                    if k_ in ("return", "call", "assign") and addrs(n_):
-                        got = addrs(n_)
-                        break
+                for reg in (region, region_ext):
+                    if reg is None or got:
+                        continue
+                    eff = ieval.trace(f, reg, {"__termfn2__": tf, "__db__": db})
+                    for k_, n_ in eff:
+                        if k_ in ("return", "call", "assign") and addrs(n_):
+                            got = addrs(n_)
+                            break
                 if not got and not eff:
                     raise ieval.Unknown("nothing executed for From-DS=%d, To-DS=%d" % (fd, td))
                 want = frozenset(DS_TABLE[r][(fd, td)] for r in roles)
